@@ -19,6 +19,9 @@ var VerifScheduleHook func(s *Scheduler, g *ExecutionGraph, enter bool, err erro
 // VerifRunHook is called by the stage goroutine immediately before and after runStage.
 var VerifRunHook func(stage *Stage, enter bool, err error)
 
+// VerifCancelHook is called on entry to Scheduler.Cancel, before the flag is set.
+var VerifCancelHook func(s *Scheduler)
+
 // VerifSetPause changes the pause between two passes of the scheduling loop.
 func (s *Scheduler) VerifSetPause(d time.Duration) { s.pause = d }
 
@@ -43,5 +46,11 @@ func verifSchedule(s *Scheduler, g *ExecutionGraph, enter bool, err error) {
 func verifRun(stage *Stage, enter bool, err error) {
 	if h := VerifRunHook; h != nil {
 		h(stage, enter, err)
+	}
+}
+
+func verifCancel(s *Scheduler) {
+	if h := VerifCancelHook; h != nil {
+		h(s)
 	}
 }
